@@ -1,6 +1,7 @@
 // C06 - results depend only on (operator, nev, ncv, v, args): fresh solver == reused solver == second solver on the same operator, bit for bit;
 // the operator behaves the same before and after compute(). One solver group per build (-DZOO_GROUP=0|1|2).
 #define VF_MAIN
+#define VF_HAVE_SETUP
 #include "common/framework.hpp"
 #include "common/zoo.hpp"
 
@@ -140,6 +141,18 @@ static void run_case(vf::Ctx& ctx, const Fac& fac)
         auto es2 = fac.make_solver(*ops);
         oc = R::observed(*es2, use_v ? &v0 : nullptr, a, sc);
     }
+    // digest of the fresh solver's outcome: must not depend on what else ran in this process before (compared by the runner with a run of this case alone)
+    {
+        uint64_t h = vf::Ctx::fnv_bytes(oa.data(), oa.size());
+        if (oa == "ok")
+        {
+            const long meta[4] = {sa.ret, sa.niter, sa.nops, (long) sa.info};
+            h = vf::Ctx::fnv_bytes(meta, sizeof meta, h);
+            h = vf::Ctx::fnv_bytes(sa.evals.data(), sa.evals.size(), h);
+            h = vf::Ctx::fnv_bytes(sa.evecs.data(), sa.evecs.size(), h);
+        }
+        ctx.digest(h);
+    }
     ctx.count("comparisons", 2);
     if (oa != ob || (oa == "ok" && !(sa == sb)))
         ctx.violation(key("reused-solver-differs"), info(word).kv("fresh", oa).kv("reused", ob).kv("differs_in", oa == ob ? sa.diff(sb) : "outcome").str());
@@ -153,6 +166,8 @@ static void run_case(vf::Ctx& ctx, const Fac& fac)
         ctx.nontriv(std::string(FSHORT[d.family]) + "/" + std::to_string(d.n) + "/" + std::to_string(d.nev) + "/" + std::to_string(d.ncv) + "/" + word + "/" + std::to_string(a.maxit) + "/" + std::to_string(sa.nops));
     if (ctx.want_sample) ctx.set_sample(info(word).kv("outcome", oa).kv("returned", sa.ret).kv("num_iterations", sa.niter).kv("num_operations", sa.nops).str());
 }
+
+void vf_setup(vf::Ctx&) { vz::run_prelude<T>(); }
 
 long vf_ncases(const vf::Ctx& ctx) { return ctx.thorough ? 30000 : 1000; }
 
